@@ -272,6 +272,21 @@ func (g *Gen) run() {
 				}
 			}
 		}
+		if hi.ri != nil {
+			// the ranged slice: `index < len(x)` is the loop condition, len(x) was taken before the loop
+			if iff, ok := h.Instrs[len(h.Instrs)-1].(*ssa.If); ok {
+				if bo, ok := iff.Cond.(*ssa.BinOp); ok && bo.Op == token.LSS {
+					if call, ok := bo.Y.(*ssa.Call); ok {
+						if b, ok := call.Call.Value.(*ssa.Builtin); ok && b.Name() == "len" && len(call.Call.Args) == 1 {
+							if g.loopRR == nil {
+								g.loopRR = map[int]ssa.Value{}
+							}
+							g.loopRR[hi.ord] = call.Call.Args[0]
+						}
+					}
+				}
+			}
+		}
 		if autoDispenserVariants {
 			if iff, ok := h.Instrs[len(h.Instrs)-1].(*ssa.If); ok {
 				cond := iff.Cond
@@ -329,7 +344,7 @@ func (g *Gen) run() {
 	evalInvs := func(hi *headInfo, h *ssa.BasicBlock, st *State, role int) []Term {
 		var out []Term
 		for _, c := range hi.invs {
-			env := &SpecEnv{g: g, st: st, old: g.entry, fn: f, argOverride: map[string]Term{}, bound: map[string]Term{}, evalBlock: h, role: role}
+			env := &SpecEnv{g: g, st: st, old: g.entry, fn: f, argOverride: map[string]Term{}, bound: map[string]Term{}, evalBlock: h, role: role, loopOrd: hi.ord}
 			if hi.ri != nil {
 				riv := w.loadAddr(g.resolveAddr(hi.ri, st), st, tInt)
 				t := T(fmt.Sprintf("(+ %s 1)", riv.S), "Int")
